@@ -3,7 +3,9 @@
 H-monitor: recorder on ml.get_batches (all namespaces; also get_subset / reshape_pmap entry counters);
 sample i carries id i in every entry of every block of every co-batched multi-image, so the id sequence
 of every returned batch is read off exactly: count, no repeats within an epoch, identical sequences
-across multi-images and types, identity order without a key, device axis only reshapes."""
+across multi-images and types, identity order without a key, device axis only reshapes. Variants: the same object co-batched
+twice, NumPy / jax blocks mixed, typed keys. Consumer workload: ml.map_plus_loss_in_batches / map_loss_in_batches
+(get_batches -> pmap'ed evaluate -> merge_axes -> concat) must return model(x_i, y_i) for exactly the batched samples."""
 from __future__ import annotations
 
 import numpy as np
